@@ -215,17 +215,38 @@ func verifMakeBatch(seed, e, w, b, n int, dense bool) pmetric.Metrics {
 		}
 		return md
 	}
-	rm := md.ResourceMetrics().AppendEmpty()
-	rm.Resource().Attributes().PutStr("service.name", fmt.Sprintf("exp%d", e))
-	rm.Resource().Attributes().PutInt("wrk.parity", int64(w%2))
-	sm := rm.ScopeMetrics().AppendEmpty()
-	sm.Scope().SetName("verif")
-	sm.Scope().SetVersion("1")
+	// two resources with identical attributes that differ only in their schema URL (every fifth point goes
+	// to the second one), and under each the same scope with two different scope schema URLs
+	sms := map[int]pmetric.ScopeMetrics{}
+	smOf := func(r int) pmetric.ScopeMetrics {
+		if x, ok := sms[r]; ok {
+			return x
+		}
+		rm := md.ResourceMetrics().AppendEmpty()
+		rm.Resource().Attributes().PutStr("service.name", fmt.Sprintf("exp%d", e))
+		rm.Resource().Attributes().PutInt("wrk.parity", int64(w%2))
+		if r == 1 {
+			rm.SetSchemaUrl("https://opentelemetry.io/schemas/1.26.0")
+		}
+		x := rm.ScopeMetrics().AppendEmpty()
+		x.Scope().SetName("verif")
+		x.Scope().SetVersion("1")
+		if r == 1 {
+			x.SetSchemaUrl("https://opentelemetry.io/schemas/1.21.0")
+		}
+		sms[r] = x
+		return x
+	}
 	mets := map[int]pmetric.Metric{}
 	base := uint64(1_700_000_000_000_000_000)
 	for i := 0; i < n; i++ {
 		kind := (seed + e + w + b + i) % 4
-		m, ok := mets[kind]
+		r := 0
+		if i%5 == 4 {
+			r = 1
+		}
+		sm := smOf(r)
+		m, ok := mets[kind+4*r]
 		if !ok {
 			m = sm.Metrics().AppendEmpty()
 			m.SetName(fmt.Sprintf("m.kind%d", kind))
@@ -240,7 +261,7 @@ func verifMakeBatch(seed, e, w, b, n int, dense bool) pmetric.Metrics {
 			case 3:
 				m.SetEmptyHistogram().SetAggregationTemporality(pmetric.AggregationTemporalityDelta)
 			}
-			mets[kind] = m
+			mets[kind+4*r] = m
 		}
 		id := fmt.Sprintf("s%d.e%d.w%d.b%d.p%d", seed, e, w, b, i)
 		uniq := uint64(((e*64+w)*4096+b)*4096 + i)
